@@ -470,6 +470,7 @@ type pWorld struct {
 	lines     []string
 	viol      [][2]string
 	balancing bool
+	focus     string
 }
 
 func (w *pWorld) record(e pEvent) {
